@@ -579,6 +579,10 @@ def corr_aes(ctx, exe, quick):
     dis = correspond(ctx, "AES_256_ECB vs Lean FIPS-197 specification", lines, [exe])
     if dis:
         classify(ctx, "aes", dis, oracle)
+    dis = correspond(ctx, "AES_256_ECB vs hand model of key schedule + aes_ecb + aes_ecb4x over the generated primitives (aes256Ecb)",
+                     lines, [exe], model_lines=[l.replace("aes.enc256", "aesct.enc256") for l in lines])
+    if dis:
+        classify(ctx, "aesct256", dis, oracle)
 
 
 def corr_aesct(ctx, b, quick):
@@ -784,6 +788,24 @@ def search(ctx, state):
                     % (t[1], len(unhx(t[3])), int(t[2], 16)),
                     dict(op=l[:4000], impl=got[:400], expected=want[:400], oracle="python3 hashlib",
                          how_to_replay="echo '<op>' | drv_hash"))
+    # incremental sessions (chunks ending at / straddling the rate boundary, split squeezes) against the hashlib stream
+    il = []
+    for v in (256, 128):
+        r = RATE[v]
+        for ch in ([r], [r - 1, 1], [r, 5], [2 * r], [3, r - 3, r], [0, r + 1, r - 1], [1] * 5, []):
+            for sq in ([32], [r, 1], [r - 1, 2, r]):
+                msg = rbytes(rng, sum(ch)); off = 0; ops = []
+                for k in ch:
+                    ops.append("a" + msg[off:off + k].hex()); off += k
+                il.append("hash.inc %d %s f %s" % (v, " ".join(ops), " ".join("s%x" % n for n in sq)))
+    rc, cout, cerr = vlib.run_c([exe], il)
+    for i, l in enumerate(il):
+        dd = dict(op=l, impl=cout[i] if i < len(cout) else "<none>")
+        w = inc_oracle(dd)
+        if w:
+            return ("inc:" + hashlib.sha1(l.encode()).hexdigest()[:12], w,
+                    dict(op=l[:3000], impl=dd["impl"][:400], oracle="python3 hashlib",
+                         how_to_replay="echo '<op>' | drv_hash  (shake*_inc_init / absorb each a<hex> / finalize / squeeze each s<len>)"))
     # AES_256_ECB against the independent pure-Python FIPS 197
     al = ["aes.enc256 %s %s" % (bytes(range(32)).hex(), bytes(17 * i for i in range(16)).hex())] + \
          ["aes.enc256 %s %s" % (rbytes(rng, 32).hex(), rbytes(rng, 16).hex()) for _ in range(8)]
